@@ -255,13 +255,19 @@ def harnesses(tier):
     return hs
 
 
-def bounds(tier):
-    return (1, 1) if tier == "quick" else (2, 1)
+def bounds(tier, h=None):
+    """(PB, TB).  A clock-tick deviation is possible at every scheduling point, so TB 1 multiplies the executions by the number
+    of points: thorough keeps it for programs of <= 2 operations."""
+    if tier == "quick" or h is None:
+        return (1, 1) if tier == "quick" else (2, 1)
+    nops = sum(len(p) for p in h.progs)
+    if len(h.progs) == 2:
+        return (1, 1) if nops <= 2 else (1, 0)
+    return (2, 1) if nops <= 2 else (2, 0)
 
 
 def shard(part, shard_i, nshards, tier, seed, deadline, dots=None):
     ilv.install()
-    PB, TB = bounds(tier)
     if dots and not GRAPHS:
         for eie, path in dots.items():
             GRAPHS[eie] = tlabind.Graph(open(path).read(), relabel)
@@ -269,6 +275,7 @@ def shard(part, shard_i, nshards, tier, seed, deadline, dots=None):
     for i, h in enumerate(hs):
         if (i + seed) % nshards == shard_i:
             h.part = part
+            PB, TB = bounds(tier, h)
             ilvrun.explore_all(part, [h], 0, 1, getattr(h, "pb", PB), TB, deadline, horizon=10.0)
     for eie, g in GRAPHS.items():
         for e in g.used:
@@ -278,7 +285,8 @@ def shard(part, shard_i, nshards, tier, seed, deadline, dots=None):
 
 def run(ctx):
     PB, TB = bounds(ctx.tier)
-    ctx.bounds = {"PB": PB, "TB": TB, "harnesses": len(harnesses(ctx.tier))}
+    ctx.bounds = {"PB": PB if ctx.tier == "quick" else "2 with one scheduling thread, 1 with two", "TB": "1 for programs of <= 2 operations, else 0" if ctx.tier != "quick" else TB, "harnesses": len(harnesses(ctx.tier)),
+                  "coarse": "two PB-2 harnesses in coarse mode (exit_if_empty, an exiting loop thread vs further schedule() calls)"}
     ctx.assumptions = ["preemption at synchronisation operations and line boundaries of eventloopscheduler.py", "Condition.notify wakes waiters FIFO; no spurious wake-ups"]
     import os
     import tempfile
